@@ -260,7 +260,14 @@ func (kt *KustTarget) IgnoreLocal(ra *accumulator.ResAccumulator) error {
 	if err != nil {
 		return err
 	}
-	return ra.Intersection(kt.rFactory.FromResourceSlice(remainRes))
+	remain := resmap.New()
+	for _, res := range remainRes {
+		// a transformer may have made two ids collide
+		if err := remain.Append(res); err != nil {
+			return err
+		}
+	}
+	return ra.Intersection(remain)
 }
 
 func (kt *KustTarget) runGenerators(
